@@ -49,7 +49,7 @@ def run(ck, prog, ctx):
     # ... and the places that hand a setter on as a VALUE to a shared helper (`self.ic_of_kind(self.genes.len(), |t| t.genes().len(), InformationContent::set_gene)`)
     from engines import fn_item_args
     vsites = fn_item_args(prog, lambda v: v.startswith(IC + "::") and v.rsplit("::", 1)[-1] in SETTERS)
-    ck.floor("ROLE", "production call sites of InformationContent::set_K", len(sites) + len(vsites), 5)
+    ck.floor("ROLE", "production call sites of InformationContent::set_K", len(sites) + len(vsites), 5, soft=True)
     vcnt = {}
     pv_crisp = Prov(prog, inline=False, mutflow=False)
     for b, bi, t, ai_, v in sorted(vsites, key=lambda x: (x[0].id, x[1])):
@@ -273,6 +273,8 @@ def run(ck, prog, ctx):
     # ---- the counts reach the formula unchanged: the usize -> f32 helper converts exactly or reports an error
     from props.shared import check_exact_conversion
     check_exact_conversion(ck, "GUARD", prog, "f32_from_usize", "the annotation counts")
+    from props.shared import check_conversion_range
+    check_conversion_range(ck, "GUARD", prog, "f32_from_usize", 16, "record and annotation counts of the shipped ontology exceed 255 (the helper's u16 bound is the reviewed one)")
 
     # ---- K3: all three kinds are computed in the ConnectedTerms -> FullyAnnotated transition
     cic = prog.one(r"^ontology::builder::Builder::<ontology::builder::ConnectedTerms>::calculate_information_content$")
